@@ -198,7 +198,7 @@ def build(ws, mode="value", max_len=16384, path="", frozen_below=None, depth=0):
             node = OptN(elem, p)
         else:
             node = elem
-        if f.tag is not None and f.has_default and (f.array or f.nested is not None):
+        if f.tag is not None and (f.array or f.nested is not None):
             node = DefaultFirst(node, bridge.wire_default(f), p)
         children.append((f.name, node))
     if mode == "wire" and ws.flexible:
